@@ -56,6 +56,32 @@ CLAIMED = {
              "match one regex (dict_decision_iff); otherwise a model with exactly its keys; element/values of containers are never "
              "affected by the field option; Dict value type = union of the value types. Regex matching itself is an oracle (re); the "
              "command-line anchoring is judged against re.fullmatch by the oracle: partial.", "6 (C13)"),
+    "C14": C("Theorems (Props/C14.v): the package has exactly two state-carrying module/class-level objects (regenerated scan of every "
+             "module- and class-level assignment and of their writers, fail-closed); class-name conversion — the only thing rendering "
+             "writes into a registry — is idempotent; the context slot is restored by every render, also one left by an exception; a "
+             "render that raised after converting k names changes nothing for later renders. X-hist: every sequence of <=3 (quick) / "
+             "<=4 (thorough) calls over generations, renders on shared registries, failing renders and default-registry mutations, "
+             "each call compared with the same call in a fresh process.", "6 (C14)"),
+    "C15": C("Theorems (Props/C15.v): for EVERY interleaving of Enter/Exit/Read events whose context objects are thread-owned, what a "
+             "thread reads from the thread-local context slot is what it reads when run alone (C15_noninterference); a read in a "
+             "thread that never entered is defined; nested renders restore. Byte-code atomicity, the GIL, Jinja's and re's caches are "
+             "not modelled: real threads under a minimal switch interval are compared with solo runs (X-thread). Partial by nature.",
+             "6 (C15)"),
+    "C16": C("Theorems (Props/C16.v): defaults regenerated from the argparse declarations equal the documented ones; list documents "
+             "contribute their elements, objects themselves, dotted lookups unfold key by key; splitting documents over arguments or a "
+             "list over files does not change the assembled samples; per name the samples are the concatenation in argument order "
+             "(all -m before all -l). 'stdout after the header = library result' is a correspondence over fresh subprocesses: partial.",
+             "6 (C16)"),
+    "C17": C("Theorems (Props/C17.v): the effect order regenerated from cli.py:main / parse_args / run satisfies atomicb; for ALL fault "
+             "schedules an atomic list leaves the output file and stdout untouched on failure and writes / prints exactly the built "
+             "text on success; opening before generating is refuted. The fault enumeration (21 kinds x 4 positions x with/without an "
+             "existing file, with and without -o) runs completely in both tiers. Failures inside write(), signals: not modelled.",
+             "6 (C17)"),
+    "C19": C("Theorems (Props/C19.v): whatever argv contains, the header (template regenerated from cli.py) is exactly one raw "
+             "triple-quoted literal followed by the module text (header_is_one_string; the unrepaired header is refuted); "
+             "py_unescape (json.dumps(s, ensure_ascii=False)) = s and py_unescape (repr s) = s for every string; an empty or "
+             "whitespace-only preamble is dropped. The tokenizer model is compared with CPython (ast) on every CLI output of the run.",
+             "6 (C19)"),
 }
 ALL = ["C%02d" % i for i in range(1, 20)]
 NOT_YET = "check not built yet in this revision (work in progress; the property is in scope of the method — see DESIGN.md section 6)"
